@@ -481,6 +481,10 @@ class AnsiString:
             match_case - set to True to make matching case-sensitive (false by default)
             count - the number of matches to format or -1 to match all
         '''
+        if isinstance(matchspec, AnsiStr):
+            # An AnsiStr stands for its text (its raw str value is its rendering and it overrides ==, [] and len())
+            matchspec = matchspec.base_str
+
         if not regex:
             matchspec = re.escape(matchspec)
 
@@ -509,6 +513,10 @@ class AnsiString:
             match_case - set to True to make matching case-sensitive (false by default)
             count - the number of matches to unformat or -1 to match all
         '''
+        if isinstance(matchspec, AnsiStr):
+            # An AnsiStr stands for its text (its raw str value is its rendering and it overrides ==, [] and len())
+            matchspec = matchspec.base_str
+
         if not regex:
             matchspec = re.escape(matchspec)
 
